@@ -505,6 +505,20 @@ var slFloats = []string{"0.5", "1.5", "-2.25", "3.0", "-0.0", "0.0", "100.0", "-
 	"1.0/0", "-1.0/0", "0.0/0*1.0", "0.1", "1e21", "1e-7", "9007199254740992.0", "9223372036854775808.0", "-9223372036854775808.0",
 	"1e15", "123456789.125", "2.5e-3", "1e22", "1e23", "0.30000000000000004", "5e-324*3"}
 
+// integral floats of every digit count and both signs: Float.Inspect decides by the TEXT whether ".0" has to be
+// appended for the value to read back as a float (the int64 boundary is 19 digits, 20 characters with the sign)
+func init() {
+	for k := 0; k <= 23; k++ {
+		for _, m := range []string{"1", "-1", "1.5", "-1.5", "9.75", "-9.75", "-1.2345678901234568", "4", "-4", "-9.2", "9.2"} {
+			if k == 0 && strings.Contains(m, ".") {
+				continue
+			}
+			slFloats = append(slFloats, fmt.Sprintf("%se%d", m, k))
+		}
+	}
+	slFloats = append(slFloats, "9223372036854774784.0", "-9223372036854774784.0", "9223372036854777856.0", "-9223372036854777856.0")
+}
+
 var slRunes = []string{"\u00e9", "\u00fc", "\u20ac", "\u65e5\u672c", "\U0001F600", "\u00a0", "\u200b", "\u2028", "\ufeff", "\U000e0001", "\u0085", "\ufffd", "\u00ad", "\u0378"}
 
 func slRandBytes(r *rng, n int) []byte {
